@@ -58,6 +58,12 @@ func (vertex *Vertex) Validate() error {
 	if vertex.Label == "" {
 		return errors.New("'label' cannot be blank")
 	}
+	if err := validateNoNul("gid", vertex.Gid); err != nil {
+		return err
+	}
+	if err := validateNoNul("label", vertex.Label); err != nil {
+		return err
+	}
 	for k := range vertex.GetDataMap() {
 		err := ValidateFieldName(k)
 		if err != nil {
@@ -121,6 +127,18 @@ func (edge *Edge) Validate() error {
 	if edge.To == "" {
 		return errors.New("'to' cannot be blank")
 	}
+	if err := validateNoNul("gid", edge.Gid); err != nil {
+		return err
+	}
+	if err := validateNoNul("label", edge.Label); err != nil {
+		return err
+	}
+	if err := validateNoNul("from", edge.From); err != nil {
+		return err
+	}
+	if err := validateNoNul("to", edge.To); err != nil {
+		return err
+	}
 	for k := range edge.GetDataMap() {
 		err := ValidateFieldName(k)
 		if err != nil {
@@ -156,7 +174,19 @@ func ValidateFieldName(k string) error {
 	return nil
 }
 
+// validateNoNul rejects identifiers that contain the NUL byte: it is the component
+// separator of the key-value storage keys, so such an identifier cannot be stored faithfully.
+func validateNoNul(field, k string) error {
+	if strings.Contains(k, "\x00") {
+		return fmt.Errorf("'%s' cannot contain the NUL character", field)
+	}
+	return nil
+}
+
 func validate(k string) error {
+	if strings.Contains(k, "\x00") {
+		return errors.New(`cannot contain the NUL character`)
+	}
 	if strings.ContainsAny(k, `!@#$%^&*()+={}[] :;"',.<>?/\|~`) {
 		return errors.New(`cannot contain: !@#$%^&*()+={}[] :;"',.<>?/\|~`)
 	}
